@@ -65,15 +65,15 @@ def vfsx_stage(prop, cases, name="native", kind="native", **kw):
 
 
 def c07_stages(tier):
-    return [vfsx_stage("C07", 4_000 if tier == "quick" else 150_000, timeout=2400, crash_is_violation=True)]
+    return [vfsx_stage("C07", 12_000 if tier == "quick" else 150_000, timeout=2400, crash_is_violation=True)]
 
 
 def c14_stages(tier):
-    return [vfsx_stage("C14", 4_000 if tier == "quick" else 150_000, timeout=2400, crash_is_violation=True)]
+    return [vfsx_stage("C14", 12_000 if tier == "quick" else 150_000, timeout=2400, crash_is_violation=True)]
 
 
 def c19_stages(tier):
-    return [vfsx_stage("C19", 1_600 if tier == "quick" else 15_000, timeout=3600, crash_is_violation=True)]
+    return [vfsx_stage("C19", 3_200 if tier == "quick" else 15_000, timeout=3600, crash_is_violation=True)]
 
 
 def ptfs_stage(prop, cases, name="native", kind="native", **kw):
@@ -83,7 +83,7 @@ def ptfs_stage(prop, cases, name="native", kind="native", **kw):
 
 
 def c05_stages(tier):
-    st = [ptfs_stage("C05", 2_048 if tier == "quick" else 30_000, timeout=3600, crash_is_violation=True)]
+    st = [ptfs_stage("C05", 6_144 if tier == "quick" else 30_000, timeout=3600, crash_is_violation=True)]
     if tier == "thorough":
         # the same monitors with the crate and harness built under AddressSanitizer
         st.append(ptfs_stage("C05", 1024, name="asan", kind="asan", core=False, timeout=3600, crash_is_violation=True))
@@ -91,13 +91,13 @@ def c05_stages(tier):
 
 
 def c06_stages(tier):
-    n = 2_400 if tier == "quick" else 60_000
+    n = 6_000 if tier == "quick" else 60_000
     return [ptfs_stage("C06", n, timeout=2400, crash_is_violation=True),
-            vfsx_stage("C06", 1_500 if tier == "quick" else 40_000, name="vfs-scripted-backends", timeout=3600, core=False)]
+            vfsx_stage("C06", 3_000 if tier == "quick" else 40_000, name="vfs-scripted-backends", timeout=3600, core=False)]
 
 
 def c08_stages(tier):
-    st = [ptfs_stage("C08", 2_000 if tier == "quick" else 60_000, timeout=3600, crash_is_violation=True)]
+    st = [ptfs_stage("C08", 6_000 if tier == "quick" else 60_000, timeout=3600, crash_is_violation=True)]
     if tier == "thorough":
         # the same monitors with the crate and harness built under AddressSanitizer
         st.append(ptfs_stage("C08", 2000, name="asan", kind="asan", core=False, timeout=3600, crash_is_violation=True))
@@ -113,12 +113,12 @@ def c09_stages(tier):
 
 def c10_stages(tier):
     # model-vs-kernel: the reference union model against the kernel's own overlayfs on the same universes (oracle self-check, crate not involved)
-    return [ptfs_stage("C10", 480 if tier == "quick" else 6_000, timeout=3600, crash_is_violation=True),
-            ptfs_stage("C10", 160 if tier == "quick" else 4_000, name="model-vs-kernel", core=False, timeout=3600, args={"kernel": 1})]
+    return [ptfs_stage("C10", 1_440 if tier == "quick" else 6_000, timeout=3600, crash_is_violation=True),
+            ptfs_stage("C10", 320 if tier == "quick" else 4_000, name="model-vs-kernel", core=False, timeout=3600, args={"kernel": 1})]
 
 
 def c11_stages(tier):
-    st = [ptfs_stage("C11", 480 if tier == "quick" else 6_000, timeout=3600, crash_is_violation=True)]
+    st = [ptfs_stage("C11", 1_440 if tier == "quick" else 6_000, timeout=3600, crash_is_violation=True)]
     if tier == "thorough":
         # the same monitors with the crate and harness built under AddressSanitizer
         st.append(ptfs_stage("C11", 320, name="asan", kind="asan", core=False, timeout=3600, crash_is_violation=True))
@@ -135,7 +135,7 @@ def c20_stages(tier):
 
 
 def c15_stages(tier):
-    st = [ptfs_stage("C15", 4_000 if tier == "quick" else 100_000, timeout=3600, crash_is_violation=True)]
+    st = [ptfs_stage("C15", 12_000 if tier == "quick" else 100_000, timeout=3600, crash_is_violation=True)]
     if tier == "thorough":
         # the same monitors with the crate and harness built under AddressSanitizer
         st.append(ptfs_stage("C15", 4000, name="asan", kind="asan", core=False, timeout=3600, crash_is_violation=True))
@@ -143,7 +143,7 @@ def c15_stages(tier):
 
 
 def c16_stages(tier):
-    st = [ptfs_stage("C16", 2_400 if tier == "quick" else 60_000, timeout=3600, crash_is_violation=True)]
+    st = [ptfs_stage("C16", 4_800 if tier == "quick" else 60_000, timeout=3600, crash_is_violation=True)]
     if tier == "thorough":
         # the same monitors with the crate and harness built under AddressSanitizer
         st.append(ptfs_stage("C16", 1200, name="asan", kind="asan", core=False, timeout=3600, crash_is_violation=True))
@@ -151,7 +151,7 @@ def c16_stages(tier):
 
 
 def c18_stages(tier):
-    st = [ptfs_stage("C18", 3_000 if tier == "quick" else 50_000, timeout=3600, crash_is_violation=True)]
+    st = [ptfs_stage("C18", 9_000 if tier == "quick" else 50_000, timeout=3600, crash_is_violation=True)]
     if tier == "thorough":
         # the same monitors with the crate and harness built under AddressSanitizer
         st.append(ptfs_stage("C18", 1500, name="asan", kind="asan", core=False, timeout=3600, crash_is_violation=True))
